@@ -1,7 +1,108 @@
-import Driver.Util
-open Lean
+import Driver.TyJson
+import Heph.Model.Find
+/-! ops of the family `find` (C09):
+
+* `find.types {tt, etype, types, get_subtypes, include_self, bound?, related?, expect?}` → the
+  model's `_find_types` answer (concrete_only = False): `true` when the request carries
+  `"expect": [idx…]` and the two are equal as sets (by the IR's `==`, same number of distinct
+  elements), else the list of canonical trees — or the name of the exception;
+* `find.check {tt, B, etype, get_subtypes, include_self, concrete_only, bound?, results}` →
+  `{ok, bad: [positions of results failing resultOK], self: is the query among the results}`;
+* `find.avail {tt, types, relevant, expect?}` → `available_types`, compared as a list;
+* `find.irrelevant {tt, B, any, etype, result?}` → `{ok, early, sub, sup, tcon}`;
+* `find.subd {tt, B, s, t}` → the declarative decider's answer. -/
+open Lean Heph Heph.Ty Heph.Find
 namespace Driver.Find
 
-def handle : Handler := fun _ _ => none
+def frToJson (f : List Ty → Json) : FR (List Ty) → Json
+  | .ok l => f l
+  | .typeError => Json.str "TypeError"
+  | .attrError => Json.str "AttributeError"
+  | .fuel => Json.str "fuel"
+
+def optList (tbl : Array Ty) (j : Json) (k : String) : Except String (Option (List Ty)) :=
+  match j.getObjVal? k with
+  | .error _ => pure none
+  | .ok v => do pure (some (← idxList tbl v))
+
+def setEq (a b : List Ty) : Bool :=
+  a.all (fun x => memBeq x b) && b.all (fun x => memBeq x a) && (toSet a).length == (toSet b).length
+
+def listEq : List Ty → List Ty → Bool
+  | [], [] => true
+  | x :: xs, y :: ys => structEq x y && listEq xs ys
+  | _, _ => false
+
+def bflag (j : Json) (k : String) : Bool :=
+  match j.getObjVal? k with
+  | .ok (Json.bool b) => b
+  | _ => false
+
+def handle : Handler := fun op j =>
+  match op with
+  | "find.types" => some (do
+      let tbl ← parseTable j
+      let etype ← tyAt tbl j "etype"
+      let types ← tyListAt tbl j "types"
+      let bound ← tyOptAt tbl j "bound"
+      let related ← tyOptAt tbl j "related"
+      let exp ← optList tbl j "expect"
+      let r := findTypes etype types (bflag j "get_subtypes") (bflag j "include_self") bound related
+      pure (res (frToJson (fun l =>
+        match exp with
+        | some e => if setEq l e then Json.bool true else tysToJson l
+        | none => tysToJson l) r)))
+  | "find.check" => some (do
+      let tbl ← parseTable j
+      let etype ← tyAt tbl j "etype"
+      let B ← tyListAt tbl j "B"
+      let bound ← tyOptAt tbl j "bound"
+      let rs ← tyListAt tbl j "results"
+      let gs := bflag j "get_subtypes"
+      let is := bflag j "include_self"
+      let co := bflag j "concrete_only"
+      pure (res (Json.mkObj [
+        ("ok", Json.bool (subtypesOK B gs is co bound etype rs)),
+        ("bad", ofNatList (badResults B gs co etype rs)),
+        ("self", Json.bool (memBeq etype rs)),
+        ("self_demanded", Json.bool (selfDemanded B gs co bound etype))])))
+  | "find.avail" => some (do
+      let tbl ← parseTable j
+      let types ← tyListAt tbl j "types"
+      let rel ← tyListAt tbl j "relevant"
+      let exp ← optList tbl j "expect"
+      let v := match j.getObjVal? "variant" with
+        | .ok (Json.str "asIs") => Variant.asIs
+        | .ok (Json.str "repaired") => Variant.repaired
+        | _ => Variant.current
+      let anyT ← tyOptAt tbl j "any"
+      let etype ← tyOptAt tbl j "etype"
+      let r := match v, anyT, etype with
+        | .repaired, some a, some e => availTypesV .repaired a e types rel
+        | _, _, _ => FR.ok (availTypes types rel)
+      pure (res (frToJson (fun l => match exp with
+        | some e => if listEq l e then Json.bool true else tysToJson l
+        | none => tysToJson l) r)))
+  | "find.current" => some (pure (res (Json.str (match Variant.current with
+      | .asIs => "asIs" | .repaired => "repaired"))))
+  | "find.irrelevant" => some (do
+      let tbl ← parseTable j
+      let etype ← tyAt tbl j "etype"
+      let anyT ← tyAt tbl j "any"
+      let B ← tyListAt tbl j "B"
+      let r ← tyOptAt tbl j "result"
+      let tgt := irrTarget anyT etype
+      pure (res (Json.mkObj [
+        ("ok", Json.bool (irrelevantOK B anyT etype r)),
+        ("top", Json.bool (beq etype anyT)),
+        ("early", Json.bool (irrEarly anyT etype)),
+        ("sub", Json.bool (match r with | some x => subJ B x tgt | none => false)),
+        ("sup", Json.bool (match r with | some x => subJ B tgt x | none => false)),
+        ("tcon", Json.bool (match r with | some x => x.isTCon | none => false))])))
+  | "find.subd" => some (do
+      let tbl ← parseTable j
+      let B ← tyListAt tbl j "B"
+      pure (res (Json.bool (subJ B (← tyAt tbl j "s") (← tyAt tbl j "t")))))
+  | _ => none
 
 end Driver.Find
